@@ -42,7 +42,7 @@
 From Coq Require Import ZArith NArith List Bool Lia.
 From IRV Require Import Base.Exn Gen.C05Gen C05.Model C05.Proofs C05.Proofs2 C05.Proofs3 C05.Proofs4 C05.Proofs5 C05.Proofs6
      C05.Proofs7 C05.Proofs8 C05.Proofs9 C05.Proofs10 C05.Proofs11 C05.Proofs12 C05.Proofs13 C05.Proofs14 C05.Proofs15
-     C05.Proofs16 C05.Inline C05.InlineCert C05.InlinePass C05.Proofs17.
+     C05.Proofs16 C05.Inline C05.InlineCert C05.InlinePass C05.Proofs17 C05.Proofs19 C05.Opsets.
 Import ListNotations.
 Open Scope N_scope.
 
@@ -354,6 +354,56 @@ Theorem C05_sequence :
     /\ Refines T absent tensor_val interp m (fold_left (apply_pass other tbl) ps m).
 Proof. intros T a tv i H1 H2 H3 H4 other H5 tbl H6 H7 ps m HI Hok. exact (sequence_all T a tv i H1 H2 H3 H4 other H5 tbl H6 H7 ps m HI Hok). Qed.
 Print Assumptions C05_sequence.
+
+(* ---- the same composition theorem with EXECUTABLE hypotheses (Proofs19): validity (wfb, noopfuncb) and every pass's own
+   side condition at the point where it runs (extra_okb: fresh counters above all identities, locality of outputs, no
+   BatchNormalization training_mode, schema table / defaults table consistent with the functions, ...) are boolean tests;
+   the check evaluates them in Coq on every step of every generated sequence, so the theorem applies to that very input
+   (steps where a test is false are counted as outside the hypotheses in the evidence). *)
+Theorem C05_sequence_checked :
+  forall (T : Type) (absent : T) tensor_val interp,
+    (forall op attrs subs subs' ins k r, Forall2 (sub_le T) subs subs' -> interp op attrs subs ins k = Some r -> interp op attrs subs' ins k = Some r) ->
+    (forall op attrs subs x, is_identity_op op = true -> interp op attrs subs [x] 1%nat = Some [x]) ->
+    (forall op attrs subs ins k, interp op attrs subs (ins ++ [absent]) k = interp op attrs subs ins k) ->
+    (forall op attrs subs ins k k' outs, (0 < k')%nat -> (k' <= k)%nat -> interp op attrs subs ins k = Some outs ->
+        exists outs', interp op attrs subs ins k' = Some outs' /\ forall j, (j < k')%nat -> nth_error outs' j = nth_error outs j) ->
+    forall other,
+    (forall lift_all size_limit op k name a t subs, is_constant_op op = true -> lift_tensor lift_all size_limit other k name a = Some t ->
+        interp op [(name, a)] subs [] 1%nat = Some [tensor_val t]) ->
+    forall tbl,
+    (forall op attrs aenv subs ins k,
+        interp op (resolve aenv (add_attrs attrs (op_defaults tbl op))) subs ins k = interp op (resolve aenv attrs) subs ins k) ->
+    (forall op attrs attrs' subs ins k,
+      Forall2 (fun x y => fst x = fst y /\ (snd x = snd y \/ (is_graph_attr (snd x) = true /\ is_graph_attr (snd y) = true
+                                                              /\ length (attr_graphs [x]) = length (attr_graphs [y])))) attrs attrs' ->
+      interp op attrs subs ins k = interp op attrs' subs ins k) ->
+    forall ps m, invb m = true -> seq_okb other tbl ps m = true ->
+    Inv (fold_left (apply_pass other tbl) ps m)
+    /\ Refines T absent tensor_val interp m (fold_left (apply_pass other tbl) ps m).
+Proof. intros T a tv i H1 H2 H3 H4 other H5 tbl H6 H7 ps m HI Hok. exact (sequence_checked T a tv i H1 H2 H3 H4 other H5 tbl H6 H7 ps m HI Hok). Qed.
+Print Assumptions C05_sequence_checked.
+
+(* ---- RemoveUnusedOpsetsPass (Opsets.v): the term is unchanged; every node of the main graph and its subgraphs, every
+   function's domain and the default domain resolve to the same version in the pruned model table; every node of a
+   function body (and the default domain) resolves to the same version in the function's pruned table; nothing is added. *)
+Theorem C05_remove_unused_opsets_keeps_versions :
+  forall fuel pf om,
+    let om' := remove_unused_opsets fuel pf om in
+    o_model om' = o_model om
+    /\ (forall op, In op (rec_ops fuel (o_model om) GMain)
+                   \/ (exists fn, In fn (m_funcs (o_model om)) /\ op_domain op = op_domain (f_id fn)) \/ op_domain op = [] ->
+                   resolve_version om' GMain op = resolve_version om GMain op)
+    /\ (forall i op, In op (rec_ops fuel (o_model om) (GFunc i)) \/ op_domain op = [] ->
+                     resolve_version om' (GFunc i) op = resolve_version om (GFunc i) op)
+    /\ (forall dv, In dv (o_imports om') -> In dv (o_imports om))
+    /\ length (o_fimports om') = length (o_fimports om).
+Proof.
+  intros fuel pf om. cbv zeta. split; [apply remove_unused_opsets_term|].
+  split; [intros op H; apply remove_unused_opsets_main; exact H|].
+  split; [intros i op H; apply remove_unused_opsets_func; exact H|].
+  apply remove_unused_opsets_incl.
+Qed.
+Print Assumptions C05_remove_unused_opsets_keeps_versions.
 
 (* 0f568df: the former witness (Identity of an outer-scope value as a subgraph output) is kept: outputs stay local *)
 Theorem C05_identity_elim_outer_scope_witness :
